@@ -483,6 +483,22 @@ impl WExec {
                     }
                 };
             }
+            "stake" => {
+                // MONITOR-ONLY and terminal (the Lean wallet model has no staking transaction): build the node's staking
+                // transaction from the wallet as it stands; the balance must still be the sum of the slips listed as unspent
+                let (req, unlocked, floor): (u64, u64, u64) = (p[1].parse().unwrap(), p[2].parse().unwrap(), p[3].parse().unwrap());
+                let had_stake = !self.w.staking_slips.is_empty();
+                let w = &mut self.w;
+                let r = guarded(|| w.create_staking_transaction(req, unlocked, floor).is_ok());
+                out.count(&format!("wallet:create_staking_transaction:{}:{}", if had_stake { "wallet-holds-stake-slips" } else { "normal-slips-only" }, match r { Ok(true) => "ok", Ok(false) => "err", Err(_) => "panic" }));
+                if r.is_err() {
+                    mfail(out, "C19/create_staking_transaction-panics", "Wallet::create_staking_transaction panicked", serde_json::json!({"layer": "wallet", "script": self.script}));
+                } else if let Some(what) = monitor_balance(&self.w) {
+                    mfail(out, "C19/balance-differs-from-unspent-sum/after-staking-transaction", &what, serde_json::json!({"layer": "wallet", "script": self.script}));
+                }
+                self.dead = true;
+                return;
+            }
             _ => return,
         }
         out.case(&op, &ans);
@@ -673,6 +689,21 @@ fn wallet_script(r: &mut Rng, out: &mut Out, nops: usize) {
             }
             _ => x.exec(&format!("pend {}", r.range(500, txid.max(501))), out),
         }
+    }
+    // last step of every script: the node's staking transaction, sized so that unlocked stake slips (if the wallet holds any)
+    // do not cover it alone and normal slips have to top it up
+    // (wallets whose slips add up to more than 2^62 are left out: sums of such amounts are the subject of the `create` cases)
+    let modest = x.w.slips.values().fold(0u128, |a, sl| a + sl.amount as u128) < (1u128 << 62);
+    if !x.dead && modest {
+        let stake_sum: u64 = x.w.staking_slips.iter().filter_map(|k| x.w.slips.get(k)).map(|sl| sl.amount).fold(0u64, |a, b| a.saturating_add(b));
+        let normal = x.w.get_available_balance();
+        let req = match r.below(4) {
+            0 => stake_sum.saturating_add(1),
+            1 => stake_sum.saturating_add(normal / 2).max(1),
+            2 => (stake_sum / 2).max(1),
+            _ => stake_sum.saturating_add(normal).max(1),
+        };
+        x.exec(&format!("stake {} {} {}", req, 1_000_000, 0), out);
     }
 }
 
